@@ -27,6 +27,11 @@ claim("C14", "GetI8/16/32/64 return the same flag and number as Get for symbolic
 claim("C15", "Every integer encoder is decided over its complete machine range (value symbolic, 2^8..2^64 values at once): LE layout, round trip, four sizes agree, with 0..2 junk bytes; String16/Bytes/Dummy for enumerated lengths with symbolic content. TypeEncoder layout is outside the claim (encoding/binary is reflection-driven).", "§7 C15")
 claim("C18", "Stat.KeyCnt equals the number of retained keys and the level table is consistent on every build path within the L2 bounds and on the L3 skeletons.", "§7 C18")
 
+claim("C04", "On Complete tries NewIter/ScanFrom/ScanFromTo with symbolic start/end strings, symbolic inclusivities and withValue yield exactly the t-th retained key in range with its encoded value and stay exhausted; decided for fully symbolic tries with n<=1, for n=2 over a 6-letter nibble-diverse alphabet (the scan code forks per label bit) and for listed skeleton tries; non-Complete tries must panic or still yield the right sequence.", "§7 C04")
+claim("C08", "Without the ascending assumption the solver shows NewSlimTrie rejects (ErrKeyOutOfOrder, nil trie) exactly the key lists with a non-ascending neighbour pair (n<=3 symbolic keys; a symbolic pair inside a 64-key list); decStep(encStep(s))=s for every step the builder accepts (full int32 range); shared runs around 65535 half-bytes are refused or fully indexed.", "§7 C08")
+claim("C13", "For one symbolic key/value list built in the four information levels, a hit in a mode storing more implies the same hit in every mode storing less; Complete is exact; retained keys answer identically; within the L2/L3 bounds.", "§7 C13")
+claim("C19", "String() never panics, renders one line per node and the retained (concrete) values in key order on every build path within the L2 bounds and on skeleton tries with short-node tables (sizes 2,3) and a 257-bit root. Exact label text and table sizes 4..10 are outside the claim.", "§7 C19")
+
 def main():
     checks = []
     for pid in ALL:
